@@ -403,7 +403,7 @@ func (e *Env) templatePrivate(rule string) {
 func c19(e *Env) {
 	c := e.C
 	c.Explanation = "executeTemplate(data, text): the only text/template operations are template.New(..).Parse(text) on the unmodified parameter and Execute(buf, data) on the unmodified data with a fresh buffer; no Funcs/Delims/Option/Lookup; the non-nil reader (that buffer) is returned only on the path where both Parse and Execute reported no error, every other path returns (nil, errs.Wrap(ErrInvalidTemplate, ...)). getTempleteString(r): r == nil is tested before any use; the whole content is read with io.Copy into a fresh buffer whose String() is returned; failures return (\"\", errs.Wrap(ErrInvalidTemplate, ...)). ExportWithString (x3): receiver == nil -> (nil, errs.Wrap(ErrNullPointer)), otherwise exactly executeTemplate(receiver, str) with str unmodified. ExportWith (x3): the string from getTempleteString(r) flows unmodified into the receiver's own ExportWithString; its error returns (nil, errs.Wrap(err))."
-	c.Trusted = []string{"go/types + go/ssa", "text/template (by definition the oracle of the rendered text)", "io.Copy reads its source to EOF", "errs.Wrap keeps its first argument as cause"}
+	c.Trusted = []string{"go/types + go/ssa", "text/template (by definition the oracle of the rendered text)", "io.Copy / io.ReadAll read their source to EOF", "errs.Wrap keeps its first argument as cause"}
 	c.NotDecided = []string{"what text/template does with the text", "typed-nil io.Reader values"}
 	e.guardPanics("template-export", "v3/report", func() { e.templateRules() })
 	e.templateNames("template-export")
@@ -532,7 +532,13 @@ func (e *Env) templateRules() {
 				ok := cp != nil && isCallOf(cp, "io.Copy") && len(cp.Args) == 2 && cp.Args[1].Op == ir.OParam && cp.Args[1].N == 0 &&
 					hasGuard(lf, ir.Bin("==", &ir.Term{Op: ir.OExtract, N: 1, Args: []*ir.Term{cp}}, nilOf(errorType))) &&
 					isCallOf(lf.Ret[0], "(*bytes.Buffer).String") && lf.Ret[0].Args[0].Key() == cp.Args[0].Key() && cp.Args[0].Op == ir.OAddr && cp.Args[0].Args[0].Op == ir.OAlloc
-				c.Check(ok, rule, cons+" (success)", e.P.Pos(lf.Pos), "the whole content copied into a fresh buffer, returned unmodified", "the template text is not the reader's full content copied by io.Copy into a fresh buffer")
+				// or: io.ReadAll(reader) reported no error and the text is string(<the bytes it returned>)
+				if !ok && cp != nil && isCallOf(cp, "io.ReadAll") && len(cp.Args) == 1 && cp.Args[0].Op == ir.OParam && cp.Args[0].N == 0 {
+					r := lf.Ret[0]
+					ok = hasGuard(lf, ir.Bin("==", &ir.Term{Op: ir.OExtract, N: 1, Args: []*ir.Term{cp}}, nilOf(errorType))) &&
+						r.Op == ir.OConv && r.Str == "string" && len(r.Args) == 1 && r.Args[0].Op == ir.OExtract && r.Args[0].N == 0 && len(r.Args[0].Args) == 1 && r.Args[0].Args[0].Key() == cp.Key()
+				}
+				c.Check(ok, rule, cons+" (success)", e.P.Pos(lf.Pos), "the whole content copied into a fresh buffer (or read by io.ReadAll), returned unmodified", "the template text is not the reader's full content copied by io.Copy into a fresh buffer or read by io.ReadAll")
 			} else {
 				ok := isStringConst(lf.Ret[0], "") && wrapOf(lf.Ret[1], spec.Sentinels["template"])
 				c.Check(ok, rule, cons+" (read failure)", e.P.Pos(lf.Pos), `("", errs.Wrap(ErrInvalidTemplate, ...))`, "a failing reader is not reported as errs.Wrap(ErrInvalidTemplate, ...)")
@@ -789,7 +795,7 @@ func (e *Env) reportHelpers() (exec, read *types.Func) {
 						continue
 					}
 					cf := call.Common().StaticCallee()
-					if co := cf.Object(); co != nil && co.Pkg() == pk.Types && reaches(cf, depth+1, pkgPath, names...) {
+					if co := cf.Object(); co != nil && co.Pkg() != nil && (co.Pkg() == pk.Types || load.IsInternal(co.Pkg().Path())) && reaches(cf, depth+1, pkgPath, names...) {
 						return true
 					}
 				}
@@ -830,7 +836,8 @@ func (e *Env) reportHelpers() (exec, read *types.Func) {
 							}
 							cf := call.Call.StaticCallee()
 							callee, _ := cf.Object().(*types.Func)
-							if callee == nil || callee.Pkg() != pk.Types {
+							// (the plumbing may live in an internal package of the module shared by the report packages)
+							if callee == nil || callee.Pkg() == nil || (callee.Pkg() != pk.Types && !load.IsInternal(callee.Pkg().Path())) {
 								continue
 							}
 							if rv := callee.Type().(*types.Signature).Recv(); rv != nil {
@@ -854,7 +861,7 @@ func (e *Env) reportHelpers() (exec, read *types.Func) {
 								}
 								fit = callee
 							}
-							if !callee.Exported() || callee.Type().(*types.Signature).Recv() != nil {
+							if !callee.Exported() || callee.Type().(*types.Signature).Recv() != nil || callee.Pkg() != pk.Types {
 								next = append(next, cf)
 							}
 						}
